@@ -246,6 +246,45 @@ def wTags : List Op → List Nat
   | .write t :: rest => t :: wTags rest
   | _ :: rest => wTags rest
 
+theorem mem_mkEvs_of_append (body : List Op) (n a : Nat) (h : Op.append a ∈ body) :
+    ∃ e ∈ mkEvs n body, e.tag = a := by
+  induction body generalizing n with
+  | nil => simp at h
+  | cons op rest ih =>
+    cases op with
+    | append t =>
+      simp only [List.mem_cons, Op.append.injEq] at h
+      rcases h with h | h
+      · subst h; exact ⟨{ seq := n, tag := a }, by simp [mkEvs], rfl⟩
+      · obtain ⟨e, he, ht⟩ := ih (n + 1) h
+        exact ⟨e, by simp [mkEvs, he], ht⟩
+    | write t =>
+      simp only [List.mem_cons] at h
+      rcases h with h | h
+      · cases h
+      · obtain ⟨e, he, ht⟩ := ih n h
+        exact ⟨e, by simpa [mkEvs] using he, ht⟩
+    | begin => simp only [List.mem_cons] at h; rcases h with h | h; cases h; obtain ⟨e, he, ht⟩ := ih n h; exact ⟨e, by simpa [mkEvs] using he, ht⟩
+    | commit => simp only [List.mem_cons] at h; rcases h with h | h; cases h; obtain ⟨e, he, ht⟩ := ih n h; exact ⟨e, by simpa [mkEvs] using he, ht⟩
+    | abort => simp only [List.mem_cons] at h; rcases h with h | h; cases h; obtain ⟨e, he, ht⟩ := ih n h; exact ⟨e, by simpa [mkEvs] using he, ht⟩
+    | crash => simp only [List.mem_cons] at h; rcases h with h | h; cases h; obtain ⟨e, he, ht⟩ := ih n h; exact ⟨e, by simpa [mkEvs] using he, ht⟩
+
+theorem mem_wTags_of_write (body : List Op) (w : Nat) (h : Op.write w ∈ body) : w ∈ wTags body := by
+  induction body with
+  | nil => simp at h
+  | cons op rest ih =>
+    cases op with
+    | write t =>
+      simp only [List.mem_cons, Op.write.injEq] at h
+      rcases h with h | h
+      · subst h; simp [wTags]
+      · simp [wTags, ih h]
+    | append t => simp only [List.mem_cons] at h; rcases h with h | h; cases h; simpa [wTags] using ih h
+    | begin => simp only [List.mem_cons] at h; rcases h with h | h; cases h; simpa [wTags] using ih h
+    | commit => simp only [List.mem_cons] at h; rcases h with h | h; cases h; simpa [wTags] using ih h
+    | abort => simp only [List.mem_cons] at h; rcases h with h | h; cases h; simpa [wTags] using ih h
+    | crash => simp only [List.mem_cons] at h; rcases h with h | h; cases h; simpa [wTags] using ih h
+
 /-- a flat body inside a block only extends the connection's pending work and the publication queue -/
 theorem run_flat (c : Bool) (body : List Op) (s : St) (hd : s.depth ≠ 0) (hf : body.all Op.isFlat = true) :
     run c s body = { s with uncommitted := s.uncommitted ++ mkEvs (nextSeq s) body,
